@@ -49,6 +49,7 @@ NEAR_RD = 2500        # reward denominator of the near-tie family: rewards diffe
 LARGE_RM = 900        # reward multiplier of the large-magnitude family: costs of -900, -1800, ... per step
 HUGE_RM = 10 ** 7     # huge-magnitude family: rewards of 1e7 .. 3e7 with transition probabilities in thirds / sevenths
 SMALL_RD, SMALL_BASE = 2 ** 18, 256     # small near-tie profile: rewards ~ +-0.001, +-0.002, gaps 2**-18, 2**-17
+RARE_EPS = [1e-3, 1e-4, 1e-5, 1e-5, 1e-6, 1e-7, 1e-9]   # real probability of the rare transition (1e-3: control)
 MIXED_SM = [10 ** 8, 10 ** 9]         # mixed-magnitude family: per-state multiplier of the "big" component
 SWEEPS = [(1, 2), (3, 4), (1, 1), (0, 1)]     # discounts a call-history case switches to (mdp.discount_rate changed in place)
 ISCLOSE_ATOL, ISCLOSE_RTOL = 1e-8, 1e-5     # np.isclose defaults = the tie window of msdm's improvement steps
@@ -171,6 +172,59 @@ def lacking_action_case(rng):
     return m
 
 
+def rare_case(rng):
+    """Rare-transition family (undiscounted): a nearly closed set T of 1-2 states, from which exactly one row - (s0, a0):
+    to x in T with probability 1 - eps, to t outside T with probability eps - leads out, into a recurrent state B with
+    its own reward or into an absorbing state.  The model (TLC, Python oracles) carries the rare row as 3/4 : 1/4; only
+    instances whose optimal gain is the same for 3/4 : 1/4, 2/4 : 2/4 and 999/1000 : 1/1000 are kept, so the exact
+    answer does not depend on eps > 0; msdm gets the real eps (1e-3 .. 1e-9)."""
+    PD = 4
+    nT = rng.choice([1, 2])
+    to_abs = rng.random() < 0.4
+    N = nT + 1
+    K = rng.choice([1, 2, 2])
+    t = nT
+    P = [[[0] * N for _ in range(K)] for _ in range(N)]
+    R = [[[0] * N for _ in range(K)] for _ in range(N)]
+    avail = [[1] * K for _ in range(N)]
+    for st in range(nT):
+        for a in range(K):
+            row = [0] * N
+            if nT == 1 or rng.random() < 0.4:
+                row[rng.randrange(nT)] = PD
+            else:
+                y = rng.choice([1, 2, 3])
+                row[0], row[1] = y, PD - y
+            P[st][a] = row
+            r = rng.choice([-2, -1, 0, 1, 2, 3])
+            R[st][a] = [r] * N
+    s0, a0, x = rng.randrange(nT), rng.randrange(K), rng.randrange(nT)
+    P[s0][a0] = [0] * N
+    P[s0][a0][x] = PD - 1
+    P[s0][a0][t] = 1
+    rb = rng.choice([-2, -1, 1, 2, 3])
+    for a in range(K):
+        P[t][a][t] = PD
+        R[t][a] = [0 if to_abs else rb] * N
+    m = {"N": N, "K": K, "PD": PD, "GN": 1, "GD": 1, "ID": 2, "abs": [0] * nT + [1 if to_abs else 0], "avail": avail,
+         "P": P, "R": R, "p0": [0] * N, "CAP": BIG_CAP, "rare": [s0, a0, x, t], "eps": rng.choice(RARE_EPS)}
+    m["p0"][rng.randrange(nT)] = 2
+    return m
+
+
+def rare_insensitive(m):
+    """The optimal gain is the same for three different values of the rare probability."""
+    s0, a0, x, t = m["rare"]
+    outs = []
+    for num, den in ((1, 4), (2, 4), (1, 1000)):
+        f = den // m["PD"]
+        v = dict(m, PD=den, P=[[[q * f for q in row] for row in act] for act in m["P"]])
+        v["P"][s0][a0] = [0] * m["N"]
+        v["P"][s0][a0][x], v["P"][s0][a0][t] = den - num, num
+        outs.append(py_optimum(v))
+    return outs[0] == outs[1] == outs[2]
+
+
 def mixed_case(rng):
     """Mixed-magnitude family: a small component (near-tie twin of profile "unit": rewards of order 1, two actions of one
     state 4e-4 or 8e-4 apart, discounted 1/2, 3/4 or undiscounted, <= 2 non-absorbing states) next to a decoupled big
@@ -265,6 +319,14 @@ def make_cases(rng, n, tier):
                 rep["explicit_list"] = True
             cases.append({"m": m, "rep": rep, "n_inits": 1, "all_rules": False, "tie": tie})
             continue
+        if len(cases) % 16 == 2:                # every 16th case: a rare transition (probability 1e-3 .. 1e-9) out of a nearly closed set
+            m = rare_case(rng)
+            if not rare_insensitive(m):
+                continue
+            rep = dict(REPS[rng.choice([0, 1, 2, 4, 5])])      # not the from_matrices representation
+            rep["explicit_list"] = True                          # the rare row's state need not be reachable from the start
+            cases.append({"m": m, "rep": rep, "n_inits": 1, "all_rules": False, "rare": True})
+            continue
         if len(cases) % 16 == 13:               # every 16th case: mixed magnitudes (small near-tie component + 1e8..1e9 component)
             m, tie = mixed_case(rng)
             if not gen.magnitude_ok(m, QD=3):
@@ -321,6 +383,21 @@ def make_cases(rng, n, tier):
         # call history: the start distribution of the same MDP object is changed in place, then planned again
         if rng.random() < 0.2 and rep["rep"] != "matrices":
             case["start_sweep"] = rng.randrange(10 ** 6)
+        # input representation: initial_state_dist() lists an UNREACHABLE state with probability 0 (inferred state list):
+        # an isolated extra state nobody moves to, not in the state list, named by the start distribution with weight 0
+        if rng.random() < 0.12 and not rep["explicit_list"] and "start_sweep" not in case:
+            z = m["N"]
+            for st in range(z):
+                for a in range(m["K"]):
+                    m["P"][st][a].append(0)
+                    m["R"][st][a].append(0)
+            m["P"].append([[0] * z + [m["PD"]] for _ in range(m["K"])])
+            m["R"].append([[0] * (z + 1) for _ in range(m["K"])])
+            m["avail"].append([1] * m["K"])
+            m["abs"].append(0)
+            m["p0"].append(0)
+            m["N"] = z + 1
+            case["zinit"] = z
         cases.append(case)
     return cases
 
@@ -353,6 +430,18 @@ def prepare(case, tamper_build=None):
         # msdm gets the real rewards R * SM[s] * RM / RD, TLC the integer numerators
         mb = dict(mb, R=[[[x * SM[st] * RM / RD for x in row] for row in act] for st, act in enumerate(mb["R"])])
     b = build.build_mdp(mb, rng=rng, **rep)
+    if case.get("zinit") is not None:
+        from msdm.core.distributions import DictDistribution
+        zlab = b.slabel[case["zinit"]]
+        orig_isd = b.mdp.initial_state_dist
+        b.mdp.initial_state_dist = lambda _f=orig_isd: DictDistribution({**{e: pr for e, pr in _f().items()}, zlab: 0.0})
+    if m.get("rare"):
+        from msdm.core.distributions import DictDistribution
+        s0, a0, x, t = m["rare"]
+        key = (b.slabel[s0], b.alabel[a0])
+        rare_dist = DictDistribution({b.slabel[x]: 1.0 - m["eps"], b.slabel[t]: m["eps"]})
+        orig_nsd = b.mdp.next_state_dist
+        b.mdp.next_state_dist = lambda st, a, _f=orig_nsd: rare_dist if (st, a) == key else _f(st, a)
     if case.get("dup_actions"):
         orig_actions = b.mdp.actions
         b.mdp.actions = lambda st, _f=orig_actions: tuple(_f(st)) + tuple(_f(st))[:1]
@@ -378,6 +467,9 @@ def prepare(case, tamper_build=None):
     mp = {"N": N, "K": K, "PD": m["PD"], "GN": m["GN"], "GD": m["GD"], "ID": m["ID"],
           "abs": [m["abs"][s] for s in si], "avail": avail, "P": P, "R": R,
           "p0": [m["p0"][s] for s in si], "CAP": m["CAP"], "RD": RD, "RM": RM, "SM": [SM[x] for x in si]}
+    if m.get("rare"):
+        s0, a0, x, t = m["rare"]
+        mp["rare"] = [pos[s0] + 1, ai.index(a0) + 1, pos[x] + 1, pos[t] + 1]      # 1-based, planner order
     if sum(mp["p0"]) != m["ID"]:
         raise TLCFailure("generator: initial support outside the state list")
     # initial decision rules (1-based, list order): random available actions, at absorbing states too
@@ -666,6 +758,9 @@ def fr(x, rd=1):
     return v / rd if isinstance(v, F) else v
 
 
+# the two defects of the unmodified library found with the rare-transition / zero-probability-entry families
+RARE_SIGNATURE = "C16:multichain_policy_iteration_vectorized:rare-transition<=1e-4:gain-evaluation-drops-nearly-dependent-row"
+ZINIT_SIGNATURE = "C16:MultichainPolicyIteration.plan_on:raises-StateActionIndexError:zero-probability-initial-entry-for-unreachable-state"
 NAN_ROW_SIGNATURE = "C16:MultichainPolicyIteration.plan_on:policy-nan-row:roundoff-above-absolute-1e-10"
 
 
@@ -781,6 +876,8 @@ def add_judge_entry(judge_batch, i, mp, orc, key, o):
     if "error" in o or not o["conv"]:
         return
     base = {k: mp[k] for k in ("N", "K", "PD", "GN", "GD", "ID", "RD", "RM", "SM", "abs", "avail", "P", "R", "p0")}
+    if "rare" in mp:
+        base["rare"] = mp["rare"]
     if key in ("plan", "stream"):
         rows, okrows = [], True
         for s in range(mp["N"]):
@@ -974,9 +1071,22 @@ def judge_one(ctx, jby, steps, i, c, b, mp, role, orc, exact, myruns, outs):
     # replay, UnboundLocalError at an exhausted cap) are counted there, not reported; every clause of the statement
     # is still judged on every converged run.
     noisy = scale >= 1e6
+    eps = c["m"].get("eps")
+    if eps is not None:
+        # rare-transition family: the exact answers do not depend on eps (checked by the spec), the trajectory and the
+        # relative values do, so the implementation-shaped comparisons are not made.  Tolerance: the code solves the
+        # normal equations (condition number squared), so round-off ~ 2.2e-16 / eps^2 relative is excused - up to 1e-3:
+        # beyond that a reported gain is not a rounded right answer but a wrong one.
+        noisy = True
+        scale = scale * min(1e-3, max(TOL, 2.2e-15 / eps ** 2)) / TOL
     disc = orc["disc"]
     shape = shape_of(orc, mp) + (("+near-tie-rewards" if c["tie"].get("profile") != "small" else "+small-near-tie-rewards") if c.get("tie") else "") \
         + ("+large-rewards" if mp["RM"] == LARGE_RM else "+huge-rewards" if mp["RM"] != 1 else "") + ("+discount0" if mp["GN"] == 0 else "") + ("+mixed-magnitudes" if c.get("mixed") else "")
+    if eps is not None:
+        shape = "rare-transition"           # one signature per clause for this family (probability 1e-3 .. 1e-9)
+        ctx.count(f"rare-transition eps={eps:g}")
+    if c.get("zinit") is not None:
+        shape += "+zero-probability-initial-entry-for-unreachable-state"
     if role == "sweep":
         ctx.count("call_history:second_plan_on_after_discount_rate_changed_in_place")
     default = tuple(min(j + 1 for j in range(K) if mp["avail"][s][j]) for s in range(N))
@@ -1007,7 +1117,12 @@ def judge_one(ctx, jby, steps, i, c, b, mp, role, orc, exact, myruns, outs):
         def fail(clause, what, extra=None):
             nonlocal case_ok
             case_ok = False
-            ctx.violation(f"C16:{site}:{clause}:{shape}", f"{site} {clause} ({shape}): {what}",
+            sig = f"C16:{site}:{clause}:{shape}"
+            if eps is not None and eps <= 1e-4 and clause.split("[")[0] in ("state_gain", "initial_gain", "policy-attains"):
+                sig = RARE_SIGNATURE       # one defect: a reported gain (or the policy built on it) is wrong by O(1)
+            if c.get("zinit") is not None and clause == "raises-StateActionIndexError":
+                sig = ZINIT_SIGNATURE
+            ctx.violation(sig, f"{site} {clause} ({shape}{'' if eps is None else f', rare probability {eps:g}'}): {what}",
                           {"case": c, "unit": role or "first", "run": key if plan else list(key), "clause": clause, "extra": extra})
 
         ctx.count(f"machine_phase:{mrec['phase']}")
@@ -1021,6 +1136,9 @@ def judge_one(ctx, jby, steps, i, c, b, mp, role, orc, exact, myruns, outs):
                 ctx.count("huge-magnitude: cap exhausted on round-off ping-pong (UnboundLocalError, not judged)")
             elif all(r["phase"] == "done" for r in mrecs):
                 fail(f"raises-{o['error']}", f"raised {o['error']}: {o['msg']} where the exact machine stops after {mrec['its']} iterations")
+            elif c.get("zinit") is not None and o["error"] == "StateActionIndexError":
+                # the same defect (ZINIT_SIGNATURE) on a run that would not have reported convergence: outside the statement
+                ctx.count("zero-probability-initial-entry: raised on a run the machine does not see converge (counted)")
             else:
                 case_ok = False
                 ctx.drift("exception", {"case": digest(c), "run": tag, "error": o["error"], "machine_phase": mrec["phase"]})
@@ -1051,7 +1169,8 @@ def judge_one(ctx, jby, steps, i, c, b, mp, role, orc, exact, myruns, outs):
         def window():
             nonlocal excused
             if excused is None:
-                excused = inside_isclose_window(jr, got, rds, scale)
+                # (the stop gaps of a rare-transition instance depend on the rare probability: no excuse there)
+                excused = eps is None and inside_isclose_window(jr, got, rds, scale)
                 if excused:
                     ctx.drift("tie-window", {"case": digest(c), "run": tag, "got": got, "optimum": [str(x) for x in exact]})
             return excused
@@ -1111,7 +1230,9 @@ def judge_one(ctx, jby, steps, i, c, b, mp, role, orc, exact, myruns, outs):
                     fail("policy-support", "returned policy has an empty or ill-formed row")
                     run_ok = False
                 else:
-                    for s in range(N):
+                    if not jr.get("rareok", True):
+                        ctx.skip("rare-transition: exact evaluation of the returned policy depends on the rare probability (not judged)")
+                    for s in range(N) if jr.get("rareok", True) else []:
                         if not jr["attains"][s]:
                             run_ok = False
                             if not window():
@@ -1197,6 +1318,8 @@ def run(ctx):
 "every 16th case mixed magnitudes (decoupled small near-tie component + component with per-state multiplier 1e8/1e9); 20% of the "
                 "regular cases list an action twice in actions(s); 20% change the start distribution of the same MDP object in place and plan "
                 "again; every second unit is also planned as a fresh short-lived MDP object by the shared planner (stream); "
+"every 16th case a rare transition (real probability 1e-3..1e-9, modelled structurally, answers independent of it) out of a "
+                "nearly closed set; 12% of the inferred-list cases name an unreachable state with probability 0 in initial_state_dist(); "
                 "one planner object per max_iterations is reused across all MDP objects of a chunk; non-trivial = converged run on an instance with >=2 non-absorbing "
                 "listed states on which at least two deterministic policies have different exact value (gain) vectors")
     ctx.assumptions = [
